@@ -500,3 +500,305 @@ Proof.
   rewrite html_element_unfold. apply fmono_html_step.
   intros st'. rewrite html_children_walk. apply fmono_html_walk. exact IHch.
 Qed.
+
+(* ================================================================ indent formatter (haml / pug / slim) *)
+(* SPEC: a secondary attribute (not class / id) that is written, has an empty value and is not boolean;
+   an element without text and children that is not self-closed *)
+Definition iattr_site (c : oconfig) (a : aattr) : nat :=
+  if negb (truthy_l (aa_value a)) && negb (is_boolean_attribute c a) then 1 else 0.
+Definition isecondary (n : anode) : list aattr :=
+  filter should_output_attribute
+         (filter (fun a => negb (is_primary a)) (match an_attrs n with Some l => l | None => [] end)).
+Definition iattr_sites (c : oconfig) (n : anode) : nat :=
+  fold_right (fun a k => iattr_site c a + k) 0 (isecondary n).
+Fixpoint isites (c : oconfig) (n : anode) : nat :=
+  match n with
+  | ANode nm v rp at_ ch sc =>
+      iattr_sites c (ANode nm v rp at_ ch sc) + leaf_site (ANode nm v rp at_ ch sc)
+      + (fix go (l : list anode) : nat := match l with [] => 0 | x :: r => isites c x + go r end) ch
+  end.
+Definition isites_list (c : oconfig) (l : list anode) : nat := fold_right (fun x k => isites c x + k) 0 l.
+
+Lemma Emits_push_raw s st : Emits st (push_raw s st) 0.
+Proof.
+  apply Emits_0; [|reflexivity]. unfold fchunks, push_raw, os_push. cbn [fs_out].
+  rewrite ch_push_gen, fields_app. cbn. rewrite app_nil_r. reflexivity.
+Qed.
+
+Lemma Emits_primary c attrs st :
+  forallb (fun a => plain_value (aa_value a)) attrs = true -> Emits st (push_primary_attributes c attrs st) 0.
+Proof.
+  intros Hp. unfold push_primary_attributes.
+  assert (G : forall l st0, forallb (fun a => plain_value (aa_value a)) l = true ->
+            Emits st0 (fold_left (fun st a =>
+               match aa_value a with
+               | None => st
+               | Some v =>
+                   if name_is a s_class then
+                     push_tokens c (map (fun t => match t with VStr s => VStr (ws_to_dot false s) | _ => t end) v)
+                                 (push_str c [c_dot] st)
+                   else push_tokens c v (push_str c [c_hash] st)
+               end) l st0) 0).
+  { induction l as [|a l IH]; intros st0 Hl; cbn [fold_left]; [apply Emits_refl|].
+    cbn [forallb] in Hl. apply andb_true_iff in Hl. destruct Hl as [Ha Hl].
+    replace 0 with (0 + 0) by reflexivity. eapply Emits_trans; [|apply IH, Hl].
+    destruct (aa_value a) as [v|]; [|apply Emits_refl]. cbn [plain_value] in Ha.
+    destruct (name_is a s_class); replace 0 with (0 + 0) by reflexivity;
+      (eapply Emits_trans; [apply Emits_push_str|]); apply Emits_push_plain; [|exact Ha].
+    clear -Ha. induction v as [|t v IHv]; [reflexivity|]. cbn [plain_tokens forallb map] in *.
+    apply andb_true_iff in Ha. destruct Ha as [Ht Hv]. destruct t; [|discriminate]. cbn. apply IHv, Hv. }
+  apply G, Hp.
+Qed.
+
+Lemma Emits_secondary_go c o n : forall l i st,
+  forallb (fun a => plain_value (aa_value a)) l = true ->
+  Emits st ((fix go (i : nat) (l : list aattr) (st : fstate) : fstate :=
+           match l with
+           | [] => st
+           | a :: r =>
+               let st := push_str c (attr_name c (match aa_name a with Some x => x | None => [] end)) st in
+               let st :=
+                 if is_boolean_attribute c a && negb (truthy_l (aa_value a)) then
+                   if negb (oc_compact_boolean c) && negb (match io_boolean_value o with [] => true | _ => false end)
+                   then push_str c (c_eq :: io_boolean_value o) st
+                   else st
+                 else
+                   let st := push_str c (c_eq :: attr_quote c a true) st in
+                   let st := push_tokens c (match aa_value a with Some ((_ :: _) as v) => v | _ => caret end) st in
+                   push_str c (attr_quote c a false) st in
+               let st := if negb (Nat.eqb i (n - 1)) then push_str c (io_glue_attr o) st else st in
+               go (S i) r st
+           end) i l st) (fold_right (fun a k => iattr_site c a + k) 0 l).
+Proof.
+  induction l as [|a l IH]; intros i st Hl; [apply Emits_refl|].
+  cbn [forallb] in Hl. apply andb_true_iff in Hl. destruct Hl as [Ha Hl]. cbn [fold_right].
+  eapply Emits_trans; [|apply IH, Hl]. cbv zeta.
+  set (st1 := push_str c _ st).
+  assert (E1 : Emits st st1 0) by apply Emits_push_str.
+  assert (E2 : forall s, Emits s (if negb (Nat.eqb i (n - 1)) then push_str c (io_glue_attr o) s else s) 0).
+  { intros s. destruct (negb (Nat.eqb i (n - 1))); [apply Emits_push_str|apply Emits_refl]. }
+  unfold iattr_site.
+  destruct (is_boolean_attribute c a) eqn:Hb; destruct (truthy_l (aa_value a)) eqn:Ht; cbn [andb negb].
+  - replace 0 with (0 + ((0 + (0 + 0)) + 0)) by reflexivity. eapply Emits_trans; [exact E1|]. eapply Emits_trans; [|apply E2].
+    eapply Emits_trans; [apply Emits_push_str|]. eapply Emits_trans; [|apply Emits_push_str].
+    destruct (aa_value a) as [[|v0 vr]|]; try discriminate. apply Emits_push_plain, Ha.
+  - replace 0 with (0 + (0 + 0)) by reflexivity. eapply Emits_trans; [exact E1|]. eapply Emits_trans; [|apply E2].
+    destruct (negb (oc_compact_boolean c) && _); [apply Emits_push_str|apply Emits_refl].
+  - replace 0 with (0 + ((0 + (0 + 0)) + 0)) by reflexivity. eapply Emits_trans; [exact E1|]. eapply Emits_trans; [|apply E2].
+    eapply Emits_trans; [apply Emits_push_str|]. eapply Emits_trans; [|apply Emits_push_str].
+    destruct (aa_value a) as [[|v0 vr]|]; try discriminate. apply Emits_push_plain, Ha.
+  - replace 1 with (0 + ((0 + (1 + 0)) + 0)) by reflexivity. eapply Emits_trans; [exact E1|]. eapply Emits_trans; [|apply E2].
+    eapply Emits_trans; [apply Emits_push_str|]. eapply Emits_trans; [|apply Emits_push_str].
+    destruct (aa_value a) as [[|v0 vr]|]; try discriminate; apply Emits_push_caret.
+Qed.
+
+Lemma Emits_secondary c o attrs st :
+  forallb (fun a => plain_value (aa_value a)) attrs = true ->
+  Emits st (push_secondary_attributes c o attrs st) (fold_right (fun a k => iattr_site c a + k) 0 attrs).
+Proof.
+  intros Hp. unfold push_secondary_attributes. generalize (length attrs) as n. intros n.
+  destruct attrs as [|a0 attrs0]; [apply Emits_refl|].
+  set (k := fold_right _ 0 (a0 :: attrs0)). replace k with (0 + (k + 0)) by lia.
+  eapply Emits_trans; [apply Emits_push_str|]. eapply Emits_trans; [|apply Emits_push_str].
+  apply (Emits_secondary_go c o n (a0 :: attrs0) 0), Hp.
+Qed.
+
+Lemma forallb_filter {A} (p q : A -> bool) l : forallb p l = true -> forallb p (filter q l) = true.
+Proof.
+  induction l as [|x l IH]; intros H; [reflexivity|]. cbn [forallb filter] in *. apply andb_true_iff in H.
+  destruct H as [Hx Hl]. destruct (q x); [cbn [forallb]; rewrite Hx; apply IH, Hl|apply IH, Hl].
+Qed.
+
+Lemma Emits_ind_head c o node st : attrs_plain node = true -> Emits st (ind_head c o node st) (iattr_sites c node).
+Proof.
+  intros Hp. unfold ind_head, iattr_sites, isecondary, attrs_plain in *.
+  set (attrs := match an_attrs node with Some l => l | None => [] end) in *.
+  set (s1 := match an_name node with
+             | Some ((_ :: _) as nm) =>
+                 if negb (str_eqb nm s_div) || match filter is_primary attrs with [] => true | _ => false end
+                 then push_str c (io_before_name o ++ nm ++ io_after_name o) st else st
+             | _ => st
+             end).
+  assert (E1 : Emits st s1 0).
+  { unfold s1. destruct (an_name node) as [[|x nm]|]; try apply Emits_refl.
+    destruct (negb (str_eqb (x :: nm) s_div) || _); [apply Emits_push_str|apply Emits_refl]. }
+  pose proof (Emits_primary c (filter is_primary attrs) s1 (forallb_filter _ _ _ Hp)) as E2.
+  pose proof (Emits_secondary c o (filter should_output_attribute (filter (fun a => negb (is_primary a)) attrs))
+                (push_primary_attributes c (filter is_primary attrs) s1)
+                (forallb_filter _ _ _ (forallb_filter _ _ _ Hp))) as E3.
+  exact (Emits_trans _ _ _ _ _ E1 (Emits_trans _ _ _ _ _ E2 E3)).
+Qed.
+
+(* lines of a value without fields have no fields *)
+Lemma split_plain_aux : forall (ls : list str) (res : list (list vtok)) (ln : list vtok),
+  Forall (fun l => plain_tokens l = true) res -> plain_tokens ln = true ->
+  let '(r, l) := fold_left (fun '(res, ln) l => (res ++ [ln], [VStr l])) ls (res, ln) in
+  Forall (fun l => plain_tokens l = true) r /\ plain_tokens l = true.
+Proof.
+  induction ls as [|l ls IH]; intros res ln Hr Hl; cbn [fold_left]; [split; assumption|].
+  apply IH; [|reflexivity]. apply Forall_app. split; [exact Hr|constructor; [exact Hl|constructor]].
+Qed.
+
+Lemma plain_app a b : plain_tokens (a ++ b) = plain_tokens a && plain_tokens b.
+Proof. unfold plain_tokens. apply forallb_app. Qed.
+
+Lemma split_by_lines_plain v : plain_tokens v = true -> Forall (fun l => plain_tokens l = true) (split_by_lines v).
+Proof.
+  intros Hp. unfold split_by_lines.
+  assert (G : forall toks res ln, plain_tokens toks = true ->
+            Forall (fun l => plain_tokens l = true) res -> plain_tokens ln = true ->
+            let '(r, l) := fold_left (fun '(result, line) t =>
+                 match t with
+                 | VStr s =>
+                     match splitlines s with
+                     | [] => (result, line ++ [VStr []])
+                     | l0 :: ls =>
+                         fold_left (fun '(res, ln) l => (res ++ [ln], [VStr l])) ls (result, line ++ [VStr l0])
+                     end
+                 | VField _ _ => (result, line ++ [t])
+                 end) toks (res, ln) in
+            Forall (fun l => plain_tokens l = true) r /\ plain_tokens l = true).
+  { induction toks as [|t toks IH]; intros res ln Ht Hr Hl; cbn [fold_left]; [split; assumption|].
+    cbn [plain_tokens forallb] in Ht. apply andb_true_iff in Ht. destruct Ht as [Ht Hts]. destruct t as [s|i nm]; [|discriminate].
+    destruct (splitlines s) as [|l0 ls].
+    - apply IH; [exact Hts|exact Hr|]. rewrite plain_app, Hl. reflexivity.
+    - pose proof (split_plain_aux ls res (ln ++ [VStr l0]) Hr) as Hs.
+      destruct (fold_left _ ls (res, ln ++ [VStr l0])) as [r' l'].
+      destruct Hs as [Hr' Hl']; [rewrite plain_app, Hl; reflexivity|]. apply IH; assumption. }
+  specialize (G v [] [] Hp (Forall_nil _) eq_refl).
+  destruct (fold_left _ v ([], [])) as [result line]. destruct G as [G1 G2].
+  destruct line; [exact G1|]. apply Forall_app. split; [exact G1|constructor; [exact G2|constructor]].
+Qed.
+
+Definition ileaf_caret (node : anode) : nat :=
+  if negb (truthy_l (an_value node)) && match an_children node with [] => true | _ => false end then 1 else 0.
+
+Lemma Emits_push_value c o node st :
+  plain_value (an_value node) = true -> Emits st (push_value c o node st) (ileaf_caret node).
+Proof.
+  intros Hp. unfold push_value, ileaf_caret.
+  destruct (an_value node) as [[|v0 v]|] eqn:Ev; cbn [truthy_l negb andb].
+  - (* Some []: falsy *)
+    destruct (an_children node) as [|c0 ch]; cbn [negb andb]; [|apply Emits_refl].
+    change (split_by_lines caret) with [[VField 0 []]].
+    destruct (truthy_s (an_name node) || truthy_l (an_attrs node)).
+    + replace 1 with (0 + 1) by reflexivity. eapply Emits_trans; [apply Emits_push_raw|apply Emits_push_caret].
+    + apply Emits_push_caret.
+  - (* a value without fields: no tabstop *)
+    cbn [plain_value] in Hp. pose proof (split_by_lines_plain (v0 :: v) Hp) as Hl.
+    destruct (split_by_lines (v0 :: v)) as [|l0 [|l1 ls]].
+    + replace 0 with (0 + (0 + 0)) by reflexivity.
+      eapply Emits_trans; [apply Emits_level|]. cbn [fold_left]. apply Emits_level.
+    + destruct (truthy_s (an_name node) || truthy_l (an_attrs node)).
+      * replace 0 with (0 + 0) by reflexivity. eapply Emits_trans; [apply Emits_push_raw|apply Emits_push_plain, Hp].
+      * apply Emits_push_plain, Hp.
+    + assert (G : forall lines st0, Forall (fun l => plain_tokens l = true) lines ->
+                Emits st0 (fold_left (fun st line =>
+                       let st := map_out (fun os => os_push_newline (oc_fmt c) os (Some None)) st in
+                       let st := match io_before_text o with [] => st | b => push_raw b st end in
+                       let st := push_tokens c line st in
+                       match io_after_text o with
+                       | [] => st
+                       | a => push_raw a (push_raw (repeat_str [c_space]
+                                (fold_left Nat.max (map value_length (l0 :: l1 :: ls)) O - value_length line)) st)
+                       end) lines st0) 0).
+      { induction lines as [|ln lines IH]; intros st0 Hl'; cbn [fold_left]; [apply Emits_refl|].
+        inversion Hl' as [|x y Hx Hy]; subst. replace 0 with (0 + 0) by reflexivity. eapply Emits_trans; [|apply IH, Hy].
+        cbv zeta.
+        assert (E1 : Emits st0 (push_tokens c ln (match io_before_text o with
+                                               | [] => map_out (fun os => os_push_newline (oc_fmt c) os (Some None)) st0
+                                               | b => push_raw b (map_out (fun os => os_push_newline (oc_fmt c) os (Some None)) st0)
+                                               end)) 0).
+        { destruct (io_before_text o).
+          - replace 0 with (0 + 0) by reflexivity. eapply Emits_trans; [apply Emits_newline|]. apply Emits_push_plain, Hx.
+          - replace 0 with (0 + (0 + 0)) by reflexivity.
+            eapply Emits_trans; [apply Emits_newline|]. eapply Emits_trans; [apply Emits_push_raw|apply Emits_push_plain, Hx]. }
+        destruct (io_after_text o); [exact E1|].
+        replace 0 with (0 + (0 + 0)) by reflexivity. eapply Emits_trans; [exact E1|].
+        eapply Emits_trans; apply Emits_push_raw. }
+      pose proof (Emits_level 1 st) as E1.
+      pose proof (G (l0 :: l1 :: ls) (map_out (fun os => os_add_level os 1) st) Hl) as E2.
+      match type of E2 with Emits _ ?mid _ => pose proof (Emits_level (-1) mid) as E3 end.
+      exact (Emits_trans _ _ _ _ _ E1 (Emits_trans _ _ _ _ _ E2 E3)).
+  - (* None *)
+    destruct (an_children node) as [|c0 ch]; cbn [negb andb]; [|apply Emits_refl].
+    change (split_by_lines caret) with [[VField 0 []]].
+    destruct (truthy_s (an_name node) || truthy_l (an_attrs node)).
+    + replace 1 with (0 + 1) by reflexivity. eapply Emits_trans; [apply Emits_push_raw|apply Emits_push_caret].
+    + apply Emits_push_caret.
+Qed.
+
+Lemma Emits_indent_step c o parent node index next kc st :
+  plain_value (an_value node) = true -> attrs_plain node = true -> next_emits next kc ->
+  (an_children node = [] -> kc = 0) ->
+  Emits st (indent_element_step c o parent node index next st) (iattr_sites c node + leaf_site node + kc).
+Proof.
+  intros Hv Ha Hn Hk0. unfold indent_element_step.
+  set (lv := match parent with Some _ => 1%Z | None => 0%Z end).
+  set (st1 := map_out (fun os => os_add_level os lv) st).
+  set (fmt := negb _ && negb (is_snippet node)).
+  set (st2 := if fmt then map_out (fun os => os_push_newline (oc_fmt c) os (Some None)) st1 else st1).
+  assert (E1 : Emits st st1 0) by apply Emits_level.
+  assert (E2 : Emits st1 st2 0) by (unfold st2; destruct fmt; [apply Emits_newline|apply Emits_refl]).
+  pose proof (Emits_ind_head c o node st2 Ha) as E3.
+  set (st3 := ind_head c o node st2) in *.
+  assert (E4 : Emits st3 (if an_self node && negb (truthy_l (an_value node)) && match an_children node with [] => true | _ => false end
+                          then match io_self_close o with [] => st3 | sc => push_str c sc st3 end
+                          else next (push_value c o node st3)) (leaf_site node + kc)).
+  { unfold leaf_site.
+    destruct (an_self node && negb (truthy_l (an_value node)) && match an_children node with [] => true | _ => false end) eqn:Esc.
+    - apply andb_true_iff in Esc. destruct Esc as [Esc Ec]. apply andb_true_iff in Esc. destruct Esc as [Es Ev].
+      rewrite Es. rewrite andb_false_r.
+      assert (kc = 0) as -> by (apply Hk0; destruct (an_children node); [reflexivity|discriminate]).
+      destruct (io_self_close o); [apply Emits_refl|apply Emits_push_str].
+    - assert (El : ileaf_caret node = (if negb (truthy_l (an_value node)) && match an_children node with [] => true | _ => false end && negb (an_self node) then 1 else 0)).
+      { unfold ileaf_caret. destruct (negb (truthy_l (an_value node))) eqn:E1'; [|reflexivity].
+        destruct (an_children node) eqn:E2'; [|reflexivity]. cbn [andb] in *.
+        destruct (an_self node); [discriminate|reflexivity]. }
+      rewrite <- El. eapply Emits_trans; [apply Emits_push_value, Hv|apply Hn]. }
+  match type of E4 with Emits _ ?mid _ => pose proof (Emits_level (- lv) mid) as E5 end.
+  pose proof (Emits_trans _ _ _ _ _ E1 (Emits_trans _ _ _ _ _ E2 (Emits_trans _ _ _ _ _ E3 (Emits_trans _ _ _ _ _ E4 E5)))) as E.
+  replace (0 + (0 + (iattr_sites c node + (leaf_site node + kc + 0)))) with (iattr_sites c node + leaf_site node + kc) in E by lia.
+  exact E.
+Qed.
+
+Lemma Emits_indent_walk c o parent : forall l i st,
+  Forall (fun n => forall parent index st, Emits st (indent_element c o parent n index st) (isites c n)) l ->
+  Emits st (indent_walk c o parent i l st) (isites_list c l).
+Proof.
+  induction l as [|x l IH]; intros i st HF; cbn [indent_walk isites_list fold_right]; [apply Emits_refl|].
+  inversion HF as [|y z Hx HF']; subst. eapply Emits_trans; [apply Hx|apply IH, HF'].
+Qed.
+
+Lemma isites_unfold c nm v rp at_ ch sc :
+  isites c (ANode nm v rp at_ ch sc) =
+  iattr_sites c (ANode nm v rp at_ ch sc) + leaf_site (ANode nm v rp at_ ch sc) + isites_list c ch.
+Proof.
+  cbn [isites].
+  assert (E : (fix go (l : list anode) : nat := match l with [] => 0 | x :: r => isites c x + go r end) ch = isites_list c ch).
+  { induction ch as [|x r IH]; [reflexivity|]. cbn [isites_list fold_right]. rewrite IH. reflexivity. }
+  rewrite E. reflexivity.
+Qed.
+
+Theorem Emits_indent_element c o : forall node, no_fields node = true ->
+  forall parent index st, Emits st (indent_element c o parent node index st) (isites c node).
+Proof.
+  induction node as [nm v rp at_ ch sc IHch] using anode_ind'. intros Hnf parent index st.
+  rewrite no_fields_unfold in Hnf. apply andb_true_iff in Hnf. destruct Hnf as [Hnf Hch].
+  apply andb_true_iff in Hnf. destruct Hnf as [Hv Ha].
+  rewrite indent_element_unfold, isites_unfold.
+  apply (Emits_indent_step c o parent (ANode nm v rp at_ ch sc) index _ (isites_list c ch) st Hv Ha).
+  - intros st'. rewrite indent_children_walk. cbn [an_children]. apply Emits_indent_walk.
+    rewrite forallb_forall in Hch. rewrite Forall_forall in *. intros n Hin. apply IHch; [exact Hin|apply Hch, Hin].
+  - cbn [an_children]. intros ->. reflexivity.
+Qed.
+
+Theorem indent_tabstops_in_order_lemma c o children :
+  forallb no_fields children = true ->
+  fields_of (fchunks (indent_format c o children)) = carets 1 (isites_list c children).
+Proof.
+  intros Hnf. rewrite indent_format_walk.
+  destruct (Emits_indent_walk c o None children 0 (mkFs os_empty 1)) as [H _].
+  - rewrite forallb_forall in Hnf. apply Forall_forall. intros n Hin. apply Emits_indent_element, Hnf, Hin.
+  - exact H.
+Qed.
